@@ -10,7 +10,7 @@ from model import norm, canon_value
 from cifgen import *
 
 CONT, SKIPC, SKIPS, END = 0, -1, -2, -3
-ALTS = [SKIPC, SKIPS, END, 10]
+ALTS = [SKIPC, SKIPS, END, 10, 1]      # 1 = CIF_FINISHED: a positive code like any other
 
 DOCS = {
     'scalars': [('block', 'b1', [('item', '_a', C('x')), ('item', '_b', C('1.5(2)')), ('item', '_c', C('two words'))])],
